@@ -158,7 +158,8 @@ SPEC = {
              'or repeated; custom block names incl. only one of the two given and the two defaults swapped) and shape-mismatched pairs. Oracle: row-wise left(x) != right(x) '
              'from the reference tables, compared with the miter through cirbo evaluate (all 2^n rows), the '
              'reference evaluation of the miter netlist, and is_circuit_satisfiable; operand snapshots; '
-             'wellformed(miter). Non-trivial: the circuits differ on some but not all rows.'),
+             'wellformed(miter). Non-trivial: the circuits differ on some but not all rows.'
+             ' Added during the build: operands listing 256-300 outputs, zero-input operands, one object on both sides, name variants incl. library-looking ones, a rebuilt pairwise-xor gadget in the same process.'),
     'assumptions': ['pysat stand-in (z3) decides the miter CNF'],
     'subs': [Sub('miter', cases, check_miter, {'quick': 2500, 'thorough': 150000})],
     'required_classes': {'miter': ['m=1', 'm=2', 'shared_labels', 'output_is_input', 'dup_output',
